@@ -22,7 +22,7 @@ from ..interp import Obj, Sym
 from ..sir import AnalysisBroken
 from .. import model
 from .routers import scenarios, run_router, CENTRE
-from . import sinks, C06
+from . import sinks, C06, mstpipe
 from ..effects import Effects
 
 UNITS = ["raster_queen", "profile", "trimesh"]
@@ -55,6 +55,11 @@ def run(db, chk):
              "updated and the sinks re-routed -- the early exit is taken only without pits; for every "
              "combination of base / non-base outlets and base levels that are not outlets (masked)",
              min_instances=20)
+    chk.rule("C01-E8", "bounded, end to end: mst_sink_resolver's apply() (basins, basin graph, Kruskal / Boruvka, "
+             "orientation, basic / carve re-routing, recomputed orders, tilt) interpreted on every elevation "
+             "assignment (3 levels) of small node graphs with several base-level sets: every node reaches a base "
+             "level by following receivers, the returned elevation strictly decreasing at every step, no cycle, "
+             "base levels keep themselves", min_instances=300)
     chk.rule("C01-E4", "MST resolver: donors, bottom-up and breadth-first orders are rebuilt after "
              "re-routing and before the tilt reads them", min_instances=1)
     n_sc = 0
@@ -152,6 +157,8 @@ def run(db, chk):
         # ---------------------------------------------------------------- E5
         n_sc += reroute_rule(db, chk, uname, impls)
         n_sc += pits_trigger_rule(db, chk, uname, impls)
+        if uname == UNITS[0] or chk.tier == "thorough":
+            n_sc += mstpipe.run_rule(db, chk, uname, "C01-E8", None)
         # ---------------------------------------------------------------- E4
         C06.order_rule(db, Effects(db), chk, uname, "C01-E4", only_op=MST)
     chk.absorb(db, "C09", {"C09-P2"}, "C01-E6", "the basin graph / resolver scratch state is reset at every "
